@@ -203,26 +203,8 @@ impl PoolImpl {
                     self.handle_finalization(finalization_event).await;
                 }
 
-                // potentially notify child waiting for safe-to-notar
-                for (child_slot, child_hash) in self
-                    .s2n_waiting_parent_cert
-                    .remove(&block_id)
-                    .unwrap_or_default()
-                {
-                    // the finalization above may have pruned the child's slot already
-                    if child_slot < self.first_unpruned_slot() {
-                        continue;
-                    }
-                    if let Some(output) = self
-                        .slot_state(child_slot)
-                        .notify_parent_certified(child_hash)
-                    {
-                        match output {
-                            Either::Left(event) => self.send_votor_event(event).await,
-                            Either::Right((slot, hash)) => self.send_repair((slot, hash)).await,
-                        }
-                    }
-                }
+                // potentially notify children waiting for safe-to-notar
+                self.notify_waiting_children(&block_id).await;
 
                 // add block to parent-ready tracker, send any new parents to Votor.
                 let new_parents_ready = self.parent_ready_tracker.mark_notar_fallback(&block_id);
@@ -239,8 +221,12 @@ impl PoolImpl {
             Cert::FastFinal(ff_cert) => {
                 info!("fast finalized slot {slot}");
                 let hash = ff_cert.block_hash().clone();
-                let finalization_event = self.finality_tracker.mark_fast_finalized((slot, hash));
+                let block_id = (slot, hash);
+                let finalization_event = self.finality_tracker.mark_fast_finalized(block_id.clone());
                 self.handle_finalization(finalization_event).await;
+
+                // a fast-finalization certificate certifies the block as a parent, too
+                self.notify_waiting_children(&block_id).await;
             }
             Cert::Final(_) => {
                 info!("slow finalized slot {slot}");
@@ -252,6 +238,29 @@ impl PoolImpl {
         // send to votor for broadcasting
         let event = PoolEvent::CertCreated(cert);
         self.send_votor_event(event).await;
+    }
+
+    /// Notifies the children of `block_id` that wait for its certificate (safe-to-notar).
+    async fn notify_waiting_children(&mut self, block_id: &BlockId) {
+        for (child_slot, child_hash) in self
+            .s2n_waiting_parent_cert
+            .remove(block_id)
+            .unwrap_or_default()
+        {
+            // a preceding finalization may have pruned the child's slot already
+            if child_slot < self.first_unpruned_slot() {
+                continue;
+            }
+            if let Some(output) = self
+                .slot_state(child_slot)
+                .notify_parent_certified(child_hash)
+            {
+                match output {
+                    Either::Left(event) => self.send_votor_event(event).await,
+                    Either::Right((slot, hash)) => self.send_repair((slot, hash)).await,
+                }
+            }
+        }
     }
 
     /// Mutably accesses the [`SlotState`] for the given `slot`.
